@@ -14,6 +14,10 @@ TB = "Trusted base: rustc/cargo, the harness (reference models, error models of 
 CHECKS = {
  "C01": ("runtime monitoring: model-based oracle (VecDeque) over every Window observer at every ring phase of every capacity, unique labels; unsafe build with bounds hook; Miri",
          "Exploration with complete enumeration of the finite dimensions: all capacities 0..=254 x every ring phase x every observer (incl. every consumed prefix of both iterators in thorough), rebuild paths (from_parts at every index, serde, From<Vec>/From<Box>), adversarial serialized forms; re-run on the unsafe_performance build with the bounds hook and under Miri for small capacities. Right level: the state space of a Window with labelled elements is finite and small, so observing every reachable (capacity, phase) state decides the property for the code as built.", "§4 C01"),
+ "C08": ("runtime monitoring: metamorphic oracle (no reference) - constant input => constant output without drift; leading copies of the first element => same later outputs; for every method x every length and every indicator x generated configurations",
+         "Exploration: every method at every length 1..=254 fed its construction value 2000 (thorough 20000, and 1e6 at six lengths) times with constants from 5e-324 to 1e300 incl. +-0 and non-dyadic values: selections/signals bit-equal to the first output, arithmetic outputs within a fixed number of roundings of the first output at every step (no growth). Prefix invariance with k in {1,2,n-1,n,n+1,3n} leading copies on hostile streams. All 36 indicators x 10 (60) generated configurations (all MA kinds, sources, boundary periods) on constant candles (flat, zero volume, wide) and with leading copies.", "§4 C08"),
+ "C09": ("runtime monitoring: differential oracle - every batch/wrapper API against element-wise next (bit equality), random chunkings incl. empty chunks, clone-and-diverge, peek after every step",
+         "Exploration: for all 44 methods x 10 (40) lengths and all 36 indicators x 6 (40) configurations: over, Sequence::call, apply, Sequence::apply, new_over, new_apply, into_fn, new_fn, with_history (get/iter/into_iter), with_last_value, Buffered::get, IndicatorConfig::over/init_fn, IndicatorInstance::over/into_fn, the Dyn over/next, 6 (40) random chunkings each, clones taken at 9 points while the original is driven elsewhere, peek() == last output after every step. Bit equality, one output per input. Run in the checked and the release profile.", "§4 C09"),
  "C14": ("runtime monitoring: definitional reference detectors vs the real ones, exhaustive short sequences over small alphabets + hostile long streams",
          "Exploration: crossing detectors on all sequences of length 8 (10) over the four difference classes {-1,-0,+0,1} (complete for the two-step rule) plus random touch-heavy pairs of streams; reversal detectors on all sequences of length 9 (11) over 3-symbol alphabets for small (left,right), 400 stratified (thorough: all 32131) pairs x 800-step plateau/tie streams, and 1e5..1e6-step streams that cross the PeriodType capacity thousands of times. Oracle is the definition evaluated from scratch on the history.", "§4 C14"),
  "C16": ("runtime monitoring: exhaustive enumeration of the finite Action algebra against its laws (513 actions, 513^2 pairs, 513^3 triples, all i8, all 2^32 f32 in thorough)",
